@@ -147,7 +147,7 @@ class C19(Check):
             'mapping, pair list and key<sep>value strings, separators = : == ->, parse_keys on/off; exhaustive for every '
             '(key fragment, value fragment) pair in each shape, sampled for longer lists; plus missing-separator strings, '
             'non-string pass-through values and custom parsers that raise (Exception subclasses, a BaseException subclass, StopIteration), '
-            'one-shot item iterables and reentrant calls; non-trivial = the case contains a non-literal, a value '
+            'one-shot item iterables, lists mixing pairs and strings, reentrant calls (also one that fails); non-trivial = the case contains a non-literal, a value '
             'containing the separator, a duplicate key or a tripwire reference; distinct = distinct cases')
 
     def setup(self):
